@@ -57,12 +57,12 @@ func spec() corr.Spec {
 			var res corr.Result
 			held = held[:0]
 			for _, l := range c.Lines {
-				o, hits := runLine(l)
+				o, hits := runLineGuarded(l)
 				res.Outs = append(res.Outs, o)
 				res.Hits = append(res.Hits, hits...)
 			}
 			// encoder results the script still holds must not have been changed by later encodes
-			res.Hits = append(res.Hits, checkHeld()...)
+			res.Hits = append(res.Hits, guardedHeld()...)
 			for k := range res.Hits {
 				if len(res.Hits[k].What) > 420 {
 					res.Hits[k].What = res.Hits[k].What[:400] + "… (truncated)"
